@@ -59,12 +59,13 @@ structure Core (d : DM α) (draws : Nat → α) (job : Nat × String × List α)
   who : e.mutated = job.2.1
   noise : ∃ p, e.noise = signNoise d.objs (drawNoise job.2.2 draws p) ∧ allZero (drawNoise job.2.2 draws p) = false
   dm : e.dm = withRow d job.2.1 e.noise
+  nonneg : ∀ x ∈ job.2.2, 0 ≤ x
 
 theorem produced_v0_core {fuel : Nat} {d : DM α} {draws : Nat → α} {job : Nat × String × List α} {e : Exp α}
     (h : Produced (mutate_v0 fuel) d draws job e) : Core d draws job e := by
   obtain ⟨pos, pos', hm, hit, hmu⟩ := h
-  obtain ⟨p, -, hz, hn, hd, -⟩ := mutate_v0_ok hm
-  exact ⟨hit, hmu, ⟨p, hn, hz⟩, hd⟩
+  obtain ⟨hneg, p, -, hz, hn, hd, -⟩ := mutate_v0_ok hm
+  exact ⟨hit, hmu, ⟨p, hn, hz⟩, hd, (hasNeg_false_iff _).mp hneg⟩
 
 theorem produced_core {fuel : Nat} {d : DM α} {draws : Nat → α} {job : Nat × String × List α} {e : Exp α}
     (h : Produced (mutate fuel) d draws job e) : Core d draws job e ∧ hasRoom job.2.2 = true := by
@@ -85,7 +86,8 @@ theorem core_entry {d : DM α} {draws : Nat → α} {job : Nat × String × List
     exact hx.symm
 
 theorem core_direction {d : DM α} {draws : Nat → α} {job : Nat × String × List α} {e : Exp α} (h : Core d draws job e)
-    (hg : ∀ x ∈ job.2.2, 0 ≤ x) (hu : ∀ i, 0 ≤ draws i ∧ draws i < 1) : Direction d.objs e.noise := by
+    (hu : ∀ i, 0 ≤ draws i ∧ draws i < 1) : Direction d.objs e.noise := by
+  have hg := h.nonneg
   obtain ⟨p, hp⟩ := core_entry h
   intro j o x ho hx
   obtain ⟨b, hb, rfl⟩ := hp j x hx
@@ -103,7 +105,8 @@ theorem abs_flip (o : Option Obj) (x : α) : |flip o x| = |x| := by
   · rfl
 
 theorem core_bounded {d : DM α} {draws : Nat → α} {job : Nat × String × List α} {e : Exp α} (h : Core d draws job e)
-    (hg : ∀ x ∈ job.2.2, 0 ≤ x) (hu : ∀ i, 0 ≤ draws i ∧ draws i < 1) : Bounded 0 job.2.2 e.noise := by
+    (hu : ∀ i, 0 ≤ draws i ∧ draws i < 1) : Bounded 0 job.2.2 e.noise := by
+  have hg := h.nonneg
   obtain ⟨p, hp⟩ := core_entry h
   constructor
   · obtain ⟨q, hn, -⟩ := h.noise
